@@ -17,6 +17,12 @@ Theorem C13_discipline : forall name body, In (name, body) c13_api ->
 Proof. intros name body Hin. pose proof C13_all_well_locked as H. rewrite forallb_forall in H. specialize (H _ Hin). cbn in H.
   exact (well_locked_sound body H). Qed.
 
+(* the reading of SLock/SUnlock in the abstraction - Q_MUTEX_ENTER returns holding the mutex one level deeper, Q_MUTEX_LEAVE gives
+   one level back - is the hand-read meaning of the macro texts that were reviewed (the translator fingerprints the current texts),
+   for mutexes that are created recursive (every Q_MUTEX_NEW in the sources asks for that) *)
+Theorem C13_macros_as_reviewed : mutex_macros_reviewed = true /\ forallb snd mutex_new_recursive = true.
+Proof. split; reflexivity. Qed.
+
 (* any interleaving of disciplined calls = the calls one at a time in linearization order *)
 Theorem C13_linearizable : forall (St V : Type) (s0 : St) (progs : list (list (code St V))) (sched : list nat),
   (forall p k, In p progs -> In k p -> wl St V 0 false k) ->
@@ -54,6 +60,7 @@ Example C13_rejects_prelock_read : well_locked (Seq (CallFree true) (Seq SLock (
 Proof. reflexivity. Qed.
 
 Print Assumptions C13_discipline.
+Print Assumptions C13_macros_as_reviewed.
 Print Assumptions C13_linearizable.
 Print Assumptions C13_bridge.
 Print Assumptions C13_end_to_end.
